@@ -97,6 +97,7 @@ type State struct {
 	cellOf   map[*ssa.Alloc]*Cell
 	heap     *HeapView
 	alloc    Term
+	heapBound Term // alloc counter at the last event that may have put references into the heap
 	nonnil   map[string]bool
 	open     map[*ssa.BasicBlock]*loopCtx
 	defers   []deferred
@@ -134,6 +135,7 @@ func (st *State) clone() *State {
 		cellOf: make(map[*ssa.Alloc]*Cell, len(st.cellOf)),
 		heap:   st.heap.clone(),
 		alloc:  st.alloc,
+		heapBound: st.heapBound,
 		nonnil: make(map[string]bool, len(st.nonnil)),
 		open:   make(map[*ssa.BasicBlock]*loopCtx, len(st.open)),
 		defers: append([]deferred(nil), st.defers...),
@@ -206,6 +208,9 @@ type Exec struct {
 	findings  map[string][]Finding
 	curEnv    *SpecEnv
 	pendingFn *Term
+	pendingSelf *tv
+	constGlobals []string
+	usedAxioms map[string]bool
 }
 
 func (ex *Exec) arrComp(h *HeapView, elem types.Type) Term {
@@ -456,6 +461,7 @@ func (ex *Exec) storeTo(st *State, p *Ptr, v Term) {
 		st.cells[p.Cell] = ex.define(st, "c", ex.writePath(old, p.Cell.typ, p.Path, v))
 		return
 	}
+	st.heapBound = st.alloc
 	comp, vs, ref, st0, rest, whole := ex.slot(p)
 	if whole {
 		ex.storeStruct(st, p.Ref, p.Obj, v)
@@ -528,6 +534,18 @@ func (ex *Exec) assumeWellTyped(st *State, v Term, t types.Type) {
 	}
 }
 
+// assumeLoaded: typing facts of a value loaded from the heap: references
+// stored in the heap were allocated no later than the last store or call.
+func (ex *Exec) assumeLoaded(st *State, v Term, t types.Type) {
+	b := st.heapBound
+	if b.S == "" {
+		b = st.alloc
+	}
+	for _, f := range ex.wellTyped(v, t, b, 0) {
+		st.assume(f)
+	}
+}
+
 // havocHeap replaces every component (new epoch).
 func (ex *Exec) havocHeap(st *State) {
 	ex.havocAll++
@@ -545,6 +563,7 @@ func (ex *Exec) bumpAlloc(st *State) {
 	na := ex.fresh("A", sInt)
 	st.assume(mk(sBool, "<=", st.alloc, na))
 	st.alloc = na
+	st.heapBound = na
 }
 
 // newRef allocates a fresh reference.
